@@ -137,6 +137,11 @@ Definition obs_ok (pol : hitpol) (d : disc) (ex : expo) (km : keymap) (k : nat) 
         | RErr, Unguarded => true   (* without the lock the TEXT of a build error (the path to the failing
                                        field) depends on what other threads have registered meanwhile,
                                        which the model does not track; the class is still compared *)
+        | RErr, Guarded =>
+            (* with two descriptors under one key the TEXT of the error of a type that fails alone as well
+               ("schema name N is used by both A and B": which of the two is named first, at which field the
+               build stops) depends on which descriptor was registered first; the class is still compared *)
+            match km with [] => same | _ :: _ => true end
         | _, _ => same
         end
       else match m with
